@@ -28,7 +28,8 @@ Inductive skind := KNow | KRel | KAbs | KTick.
 Inductive act :=
 | ASched (k : skind) (t : Z) (p : prio_name) (tag holder : Z) (body : list act)
 | ACancel (tag : Z)
-| ADrop (holder : Z).
+| ADrop (holder : Z)
+| ARaise.                                (* the user callable raises an exception here *)
 
 Record event := {
   e_time : Z; e_prio : Z; e_uid : Z;        (* the fields SimulationEvent.__lt__ may look at *)
@@ -134,7 +135,11 @@ Inductive logitem :=
 | LStep (steps clock : Z)                (* model.step ran: model.steps after the increment, clock *)
 | LSched (rc tag t : Z)                  (* user code called schedule_event_*: outcome, tag, time *)
 | LCancel (tag : Z)                      (* cancel_event on the event(s) known under this tag (not observed: *)
-| LDrop (holder : Z).                    (* dropping a holder    - kept for the statements of the theorems) *)
+| LDrop (holder : Z)                     (* dropping a holder    - kept for the statements of the theorems) *)
+| LRaise.                                (* the user callable raised: the exception propagates out of the run call *)
+
+Definition is_raise (i : logitem) : bool := match i with LRaise => true | _ => false end.
+Definition has_raise (l : list logitem) : bool := existsb is_raise l.
 
 Definition do_act (cfg : config) (st : state) (a : act) : state * list logitem :=
   match a with
@@ -143,13 +148,16 @@ Definition do_act (cfg : config) (st : state) (a : act) : state * list logitem :
       (st1, [LSched rc tag (if rc =? R_OK then sched_time st k t else 0)])
   | ACancel tag => (do_cancel st tag, [LCancel tag])
   | ADrop h => (do_drop st h, [LDrop h])
+  | ARaise => (st, [LRaise])
   end.
 
+(* the body of a callable: statement after statement, until one raises (the rest of the body never runs) *)
 Fixpoint do_acts (cfg : config) (st : state) (acts : list act) : state * list logitem :=
   match acts with
   | [] => (st, [])
   | a :: r =>
       let '(st1, l1) := do_act cfg st a in
+      if has_raise l1 then (st1, l1) else
       let '(st2, l2) := do_acts cfg st1 r in
       (st2, l1 ++ l2)
   end.
@@ -191,6 +199,8 @@ Fixpoint run_loop (cfg : config) (fuel : nat) (endt : Z) (st : state) : state * 
       | Some (e, rest) =>
           if e_time e <=? endt then
             let '(st1, l1) := exec_event cfg (set_events st rest) e in
+            if has_raise l1 then (st1, l1, false)      (* the exception escapes from run_until: event consumed, clock at its time *)
+            else
             let '(st2, l2, ok) := run_loop cfg n endt st1 in
             (st2, l1 ++ l2, ok)
           else (set_events (set_time (set_events st rest) endt) (ev_insert e rest), [], true)
@@ -220,6 +230,7 @@ Definition enc_log (i : logitem) : list Z :=
   | LSched rc tag t => [if rc =? R_OK then 4 else rc; tag; t]
   | LCancel _ => []
   | LDrop _ => []
+  | LRaise => []
   end.
 Definition enc_ev (e : event) : list Z := [e_tag e; e_time e; e_prio e].
 
@@ -233,6 +244,11 @@ Definition E_PAST : Z := 1.
 Definition E_UNIT : Z := 2.
 Definition E_EMPTY : Z := 3.
 
+Definition E_USER : Z := 7.
+(* how a run call ends: the user's exception propagated / completed / (model only) out of fuel *)
+Definition run_head (l : list logitem) (ok : bool) : list Z :=
+  if has_raise l then [-1; E_USER] else [if ok then 0 else -4].
+
 Definition step_op (cfg : config) (fuel : nat) (st : state) (o : op) : state * list Z * list logitem :=
   match o with
   | OSched k t p tag h body =>
@@ -243,11 +259,11 @@ Definition step_op (cfg : config) (fuel : nat) (st : state) (o : op) : state * l
   | ODrop h => let st1 := do_drop st h in (st1, 0 :: view st1 [], [LDrop h])
   | ORunUntil t =>
       let '(st1, l, ok) := run_loop cfg fuel t st in
-      (st1, (if ok then 0 else -4) :: view st1 l, l)
+      (st1, run_head l ok ++ view st1 l, l)
   | ORunFor d =>
       let '(st1, l, ok) := run_loop cfg fuel (s_time st + d) st in
-      (st1, (if ok then 0 else -4) :: view st1 l, l)
-  | ORunNext => let '(st1, l) := run_next cfg st in (st1, 0 :: view st1 l, l)
+      (st1, run_head l ok ++ view st1 l, l)
+  | ORunNext => let '(st1, l) := run_next cfg st in (st1, run_head l true ++ view st1 l, l)
   | OPeek n =>
       match s_events st with
       | [] => (st, [-1; E_EMPTY], [])
